@@ -16,21 +16,38 @@ Fixpoint sched_events (s : list tid) (wi ri : nat) : list ev :=
   | R :: r => rstep ri :: sched_events r wi (S ri)
   end.
 
-(* one segment with one flushed block, then the schedule; how often is the block in the answer? *)
-Definition sched_answer (stats : bool) (s : list tid) : nat :=
-  let y := run 1 true (fun _ => stats) sys_init ([Create 0; Flush 0] ++ sched_events s 0 0) in
-  count_pair (0, 0) (result (rds y 0)).
+(* One segment with B flushed blocks, then the schedule; the query takes route k; record queries run
+   the searcher as coded (getFilteredBlocks marking inside its loop) with everything in one batch and
+   groups of P blocks.  How often is block b in the answer? *)
+Definition qkind_of (k : nat) : qkind := match k with 1 => QStats | 3 => QGroupBy | _ => QRecords end.
 
-(* cases: (schedule, observed multiplicity of the segment's events in the answer); the first
-   half of the list are record queries, the second half statistics queries *)
-Fixpoint bad_sched (stats : bool) (cs : list (list tid * nat)) (i : nat) : list nat :=
+Definition sched_result (k B P : nat) (s : list tid) : list (nat * nat) :=
+  let y := run 1 true true one_batch (chunks P) (fun _ => qkind_of k) sys_init
+               (Create 0 :: repeat (Flush 0) B ++ sched_events s 0 0) in
+  result (rds y 0).
+
+Definition sched_answer (k B P : nat) (s : list tid) : list nat :=
+  let res := sched_result k B P s in map (fun b => count_pair (0, b) res) (seq 0 B).
+
+(* one case: (schedule, (blocks B, events per block, GOMAXPROCS P), (route, answer has only a total),
+   observation) — observation = per block the multiplicity of its events in the answer, or [number of
+   events in the answer] when the query only returns a total.
+   Routes: 0 time-ordered record search, 1 segment statistics, 2 any-order record search in front of a
+   later stats command, 3 group-by statistics as first command. *)
+Definition sched_case := (list tid * (nat * nat * nat) * (nat * bool) * list nat)%type.
+
+Definition sched_case_ok (c : sched_case) : bool :=
+  let '(s, (B, per, P), (k, total), obs) := c in
+  let m := sched_answer k B P s in
+  if total then list_eqb Nat.eqb obs [per * fold_right Nat.add 0 m]
+  else list_eqb Nat.eqb obs m.
+
+Fixpoint bad_sched (cs : list sched_case) (i : nat) : list nat :=
   match cs with
   | [] => []
-  | (s, obs) :: r => (if Nat.eqb (sched_answer stats s) obs then [] else [i]) ++ bad_sched stats r (S i)
+  | c :: r => (if sched_case_ok c then [] else [i]) ++ bad_sched r (S i)
   end.
-Definition check_sched_cases (cs : list (list tid * nat)) : list nat :=
-  let h := Nat.div (length cs) 2 in
-  bad_sched false (firstn h cs) 0 ++ bad_sched true (skipn h cs) h.
+Definition check_sched_cases (cs : list sched_case) : list nat := bad_sched cs 0.
 
 (* ---- the lock programs read from the Go source (harness/cmd/c11/locks.go) ----
    One case = one function that takes a process-wide lock, with its callees expanded: a list of
